@@ -321,6 +321,18 @@ def neighbour_bounds(ctx):
                 if alt[0] == "call" and alt[1].endswith("Option::filter") and len(alt[2]) == 2 and alt[2][1][0] == "closure":
                     inner = alt[2][0]
                     own_test = apply_closure(alt[2][1], (("elem", ("dummy",)),))
+                if alt[0] == "call" and alt[1] == "bool::then_some" and len(alt[2]) == 2:
+                    # `(idx + 1 < len).then_some(idx + 1)`: Some(x) exactly under the test, None otherwise
+                    own_c, x = alt[2]
+                    atoms, c = linear(x)
+                    lens = [s_ for s_ in subterms(own_c) if s_[0] == "call" and s_[1].endswith("::len")]
+                    if c > 0:
+                        okf = bool(lens) and lens[0][2][0] == row and entails_ge0([(own_c, True)], mk("Sub", mk("Sub", lens[0], x), const(1)))
+                    else:
+                        okf = entails_ge0([(own_c, True)], x)
+                    ctx.check(okf, "R03-neighbour-bounds", key, f, "(test).then_some(idx %+d) with a test that keeps it inside the row" % c,
+                              "cursor %s: the test %s of then_some does not keep %s inside the row" % (name, fmt(own_c)[:120], fmt(x)[:80]))
+                    continue
                 if inner[0] == "call" and inner[1] == "checked" and inner[2][0][0] == "op" and inner[2][0][1] == "Sub":
                     ctx.ok("R03-neighbour-bounds", key, "checked_sub: None below 0")
                     continue
